@@ -1014,6 +1014,7 @@ func main() {
 				{"cashu", "BlindedSignatures", "Amount"}, {"cashu", "Proofs", "Amount"},
 				{"cashu", "", "AmountSplit"}, {"cashu", "", "CheckDuplicateBlindedMessages"},
 				{"cashu", "", "Max"}, {"cashu", "", "Count"},
+				{"cashu", "TokenV3", "Proofs"}, {"cashu", "TokenV3", "Amount"},
 				{"wallet", "", "feesForProofs"}, {"wallet", "", "feesForCount"},
 				{"mint", "Mint", "TransactionFees"},
 				{"wallet", "", "inputsWithoutDLEQ"},
